@@ -173,6 +173,22 @@ theorem b2a1_transpose_a2b1 (osh ish osh' ish' : Int → Int) (batch B S N : Int
     refine ⟨b, n, x, h1, h2, h3, h4, h5, h6, by simpa [hlen] using h7, ?_⟩ <;>
     simp only [Prod.mk.injEq] at h8 ⊢ <;> tauto
 
+/-! ### advertised lengths, flip -/
+
+/-- The length of the numpy slice `s::f` (what `util.downsample` returns) equals the length
+    `Downsample`/`Upsample` advertise, `(n - s + f - 1) // f`, whenever that is non-negative. -/
+theorem sliceLen_eq_advertised (n s f : Int) (hf : 0 < f) (h : 0 ≤ Gen.downsampleLen n f s) :
+    (sliceLen n s f : Int) = Gen.downsampleLen n f s := by
+  unfold sliceLen pyRange Gen.downsampleLen at *
+  rw [pyDiv_of_pos _ hf] at h ⊢
+  rw [if_neg (by omega)]
+  simp only [List.length_map, List.length_range]
+  rw [Int.toNat_of_nonneg h]
+
+/-- flipping twice is the identity on the index level, and a flipped index stays in range -/
+theorem flip_index (n k : Int) (h0 : 0 ≤ k) (h1 : k < n) :
+    n - 1 - (n - 1 - k) = k ∧ 0 ≤ n - 1 - k ∧ n - 1 - k < n := by omega
+
 /-! ### 2-D and 3-D block loop nests -/
 
 /-- `_array_to_blocks2`: block `(ny, nx, by, bx)` reads array position `(ny·Sy + by, nx·Sx + bx)`;
